@@ -5,7 +5,7 @@ from typing import Dict, List, Optional
 
 from ..kit import alloc_literal, caller_ok, Ctx, calls, calls_target, kw, loops, normal_paths, poly_of, rule, short, stores
 from ..paths import Event, Path
-from ..terms import NONE, Term, key, poly_key, strip_ver, to_poly, _padd
+from ..terms import subterms, NONE, Term, key, poly_key, strip_ver, to_poly, _padd
 from .c04 import writer_allowlist
 
 UPD = "Simulator._update_agents_for_execution"
@@ -37,7 +37,20 @@ def r1(ctx: Ctx) -> None:
             log = ("sym", f"{l.target[0]}∈{l.loopid}")
             for bp in l.paths:
                 n += 1
-                ctx.check(not bp.conds and bp.exit[0] == "fall", f, l.node, "holdings update is unconditional for every log", "no condition, no early exit", bp.describe()[:160])
+                buyer = ("sub", ("attr", ("sym", "self"), "id2agent"), ("attr", log, "buy_agent_id"))
+                seller = ("sub", ("attr", ("sym", "self"), "id2agent"), ("attr", log, "sell_agent_id"))
+
+                def same_party(c: Term) -> bool:
+                    c = strip_ver(c)
+                    return c[0] == "cmp" and c[1] in ("is", "==") and ({c[2], c[3]} == {buyer, seller} or {c[2], c[3]} == {("attr", log, "buy_agent_id"), ("attr", log, "sell_agent_id")})
+
+                self_conds = [(c, pol) for c, pol, _ in bp.conds if same_party(c)]
+                if len(self_conds) == 1 and len(bp.conds) == 1 and self_conds[0][1] is True:
+                    # buyer and seller are one agent: +pv-pv and +v-v cancel, so leaving the holdings alone is the same fold
+                    none = not [e for e in bp.events if e.kind == "store" and (e.attr == "cash_amount" or (e.attr is None and e.base[0] == "attr" and e.base[2] == "asset_volumes"))]
+                    ctx.check(none and bp.exit[0] in ("fall", "continue"), f, l.node, "a fill of an agent with itself leaves its holdings as they are", "no update (the two deltas cancel)", bp.describe()[:120])
+                    continue
+                ctx.check(len(bp.conds) == len(self_conds) and bp.exit[0] == "fall", f, l.node, "holdings update is unconditional for every log", "no condition, no early exit", bp.describe()[:160])
                 sts = [e for e in bp.events if e.kind == "store"]
                 cash = [e for e in sts if e.attr == "cash_amount"]
                 shares = [e for e in sts if e.attr is None and e.base[0] == "attr" and e.base[2] == "asset_volumes"]
